@@ -1,5 +1,6 @@
 import MemVerif.Drv.Common
 import MemVerif.Model.Stack
+import MemVerif.Model.StackFill
 /-! driver for the subjects `stack`, `iter`, `static` -/
 namespace MemVerif.Drv
 open MemVerif.Model
@@ -63,19 +64,19 @@ def stackStep (st : StackSt) (op : List String) (env : List (Option Nat)) (obsSt
     match op with
     | ["alloc", sz, al] =>
       let (s', out, ev) := s.allocate cfg (nat! sz) (nat! al) env
-      ({ st with stack := some s' }, outStr out, upStr ev, s'.str)
+      ({ st with stack := some s' }, outStr out, upStr ev, s'.str ++ fillsStr (s.allocateFills cfg (nat! sz) (nat! al) env))
     | ["try_alloc", sz, al] =>
       let (s', out) := s.tryAllocate cfg (nat! sz) (nat! al)
-      ({ st with stack := some s' }, outStr out, "", s'.str)
+      ({ st with stack := some s' }, outStr out, "", s'.str ++ fillsStr (s.tryAllocateFills cfg (nat! sz) (nat! al)))
     | ["alloc_node", sz, al] =>
       let (s', out, ev) := s.allocate cfg (nat! sz) (nat! al) env
       let s'' := match out with | .ok _ => s'.onAlloc cfg (nat! sz) | _ => s'
-      ({ st with stack := some s'' }, outStr out, upStr ev, s''.str)
+      ({ st with stack := some s'' }, outStr out, upStr ev, s''.str ++ fillsStr (s.allocateFills cfg (nat! sz) (nat! al) env))
     | ["alloc_array", cnt, sz, al] =>
       let n := mul64 (nat! cnt) (nat! sz)
       let (s', out, ev) := s.allocate cfg n (nat! al) env
       let s'' := match out with | .ok _ => s'.onAlloc cfg n | _ => s'
-      ({ st with stack := some s'' }, outStr out, upStr ev, s''.str)
+      ({ st with stack := some s'' }, outStr out, upStr ev, s''.str ++ fillsStr (s.allocateFills cfg n (nat! al) env))
     | ["dealloc_node", sz] =>
       let s' := s.onDealloc cfg (nat! sz)
       ({ st with stack := some s' }, "done", "", s'.str)
@@ -88,7 +89,7 @@ def stackStep (st : StackSt) (op : List String) (env : List (Option Nat)) (obsSt
       | some m => (st, (Out.marker m.index m.top m.end_).str, "", s.str)
     | ["unwind", i, t, e] =>
       let (s', out, ev) := s.unwindEv cfg ⟨nat! i, nat! t, nat! e⟩
-      ({ st with stack := some s' }, outStr out, upStr ev, s'.str)
+      ({ st with stack := some s' }, outStr out, upStr ev, s'.str ++ fillsStr (s.unwindFills cfg ⟨nat! i, nat! t, nat! e⟩))
     | "bad_unwind" :: i :: t :: e :: _ =>
       let (_, out, _) := s.unwindEv cfg ⟨nat! i, nat! t, nat! e⟩
       (st, badClass out, "", s.str)
@@ -150,13 +151,13 @@ def iterStep (st : StackSt) (op : List String) (env : List (Option Nat)) (obsSta
     match op with
     | ["alloc", sz, al] =>
       let (it', out) := it.allocate cfg (nat! sz) (nat! al)
-      ({ st with iter := some it' }, outStr out, "", it'.str)
+      ({ st with iter := some it' }, outStr out, "", it'.str ++ fillsStr (it.allocateFills cfg (nat! sz) (nat! al)))
     | ["try_alloc", sz, al] =>
       let (it', out) := it.tryAllocate cfg (nat! sz) (nat! al)
-      ({ st with iter := some it' }, outStr out, "", it'.str)
+      ({ st with iter := some it' }, outStr out, "", it'.str ++ fillsStr (it.tryAllocateFills cfg (nat! sz) (nat! al)))
     | ["next"] =>
       let it' := it.nextIteration
-      ({ st with iter := some it' }, "done", "", it'.str)
+      ({ st with iter := some it' }, "done", "", it'.str ++ fillsStr (it.nextIterationFills cfg))
     | ["try_dealloc", p] => (st, if it.contains (nat! p) then "true" else "false", "", it.str)
     | ["capacity_left", i] => (st, (Out.num (it.capacityLeft (nat! i))).str, "", it.str)
     | ["move"] =>
